@@ -154,6 +154,13 @@ PRE_INT = des("p3-preempt-then-interrupt", "mutex", 3, procs=3, prios="0,1,2", b
               script0="racq0,hold2,rrel0", script1="hold1,hold1", script2="hold1,rpre0,int0h,hold1")
 
 
+# a holder that waits for another process (or an event) while holding, and loses the resource in the very instant in
+# which what it waits for happens
+PRE_WAIT = des("p3-preempted-while-awaiting", "mutex", 3, procs=3, prios="0,2,1", budget=4, res=1,
+               ops="racq0,rrel0,rpre0,waitp1,waite0,evsched1,hold0,hold1,int0,exit,return",
+               script0="racq0,waitp1,rrel0", script1="hold1,return", script2="hold1,rpre0,hold1")
+
+
 def c05_jobs(tier):
     ops = "racq0,rrel0,rpre0,hold0,hold1,tadd1,tadd1u,int0,int1,int2,stop1,exit,prio0.2,prio2.0"
     if tier == "quick":
@@ -174,14 +181,14 @@ def c05_jobs(tier):
             # a waiter that loses the hand-over race to a re-acquiring releaser twice in a row
             des("p2-hog", "mutex", 3, procs=2, prios="0,0", budget=8, res=1, ops=HOG_OPS,
                 script0="racq0,hold1,rrel0,racq0,hold1,rrel0,racq0,hold1", script1="racq0,hold1,rrel0"),
-            PRE_INT,
+            PRE_INT, PRE_WAIT,
         ]
     j1 = des("p3-loop", "mutex", 4, 1500, procs=3, prios="0,1,2", budget=5, res=1, ops=ops,
              script="racq0,hold1,rrel0,racq0,hold1")
     j2 = des("p3-eqprio", "mutex", 4, 1500, procs=3, prios="0,0,0", budget=5, res=1, ops=ops,
              script="racq0,hold1,rrel0,racq0,hold1")
     return [
-        deep(j1, 6), deep(j2, 6), PRE_INT,
+        deep(j1, 6), deep(j2, 6), PRE_INT, PRE_WAIT,
         des("p3-loop", "mutex", 4, 1500, procs=3, prios="0,1,2", budget=5, res=1, ops=ops,
             script="racq0,hold1,rrel0,racq0,hold1"),
         des("p3-eqprio", "mutex", 4, 1500, procs=3, prios="0,0,0", budget=5, res=1, ops=ops,
@@ -349,6 +356,12 @@ def c06_jobs(tier):
             ops="racq0,rrel0," + common + ",int3,prio3.2", script="racq0,hold1,rrel0"),
         des("resource-extremes", "order", 2, dl, procs=4, prios="-9223372036854775808,0,9223372036854775807,0",
             budget=3, res=1, ops="racq0,rrel0,hold0,hold1,int1", script="racq0,hold1,rrel0"),
+        # process objects placed so that their addresses (the keys of the waiting list) all hash to one slot
+        des("resource-colliding-keys", "order", b, dl, procs=4, prios="0,1,2,1", budget=3, res=1, collide=1,
+            ops="racq0,rrel0," + common + ",int3,prio3.2", script="racq0,hold1,rrel0"),
+        des("buffer-colliding-keys", "order", b, dl, procs=4, prios="0,1,2,1", budget=3, buf=2, collide=1,
+            ops="bput1,bput2,bget1,bget2," + common, script0="bput2,hold1,bput2", script1="bget1,hold1,bget2",
+            script2="bget2,hold1", script3="hold1,bget1"),
         # waiting times on a clock that starts below zero and moves in steps of 0.1
         des("resource-fractional-clock", "order", b, dl, procs=4, prios="0,1,2,1", budget=3, res=1, tscale="0.1", t0="-0.15",
             ops="racq0,rrel0,hold0,hold1,hold2,tadd1,int0,int1,prio0.2,prio1.0,prio3.2,exit", script="racq0,hold1,rrel0"),
@@ -455,6 +468,9 @@ def c07_jobs(tier):
         des("cap3-p3-preempt", "pool", b, dl, procs=3, prios="0,1,2", budget=4, pool=3, ops=ops,
             script0="pacq2,hold1,prel2", script1="pacq1,hold1,ppre2", script2="hold1,ppre3,hold1"),
         des("cap2-eqprio", "pool", b, dl, procs=3, prios="1,1,1", budget=4, pool=2, ops=ops, script="pacq1,hold1,pacq1,prel2"),
+        # process objects whose addresses (the keys of the holders' list and of the waiting list) hash to one slot
+        des("cap3-p3-colliding-keys", "pool", b, dl, procs=3, prios="0,1,2", budget=4, pool=3, ops=ops, collide=1,
+            script0="pacq2,hold1,prel2", script1="pacq1,hold1,ppre2", script2="hold1,ppre3,hold1"),
     ]
     # a waiter that loses the hand-over race to a re-acquiring releaser twice in a row
     jobs.append(des("cap2-hog", "pool", b, dl, procs=2, prios="0,0", budget=8, pool=2,
@@ -666,6 +682,8 @@ def c13_jobs(tier):
             script0="hold1,setx1,csig,setx2", script1="cwait0,hold1", script2="cwait1,hold1", script3="cwait2,hold1"),
         des("forwarded-register", "condition", b, dl, procs=4, prios="0,1,2,1", budget=4, cond=1, res=1, ops=ops,
             subscribe="res", script0="racq0,hold1,rrel0", script1="cwait3,hold1", script2="cwait3,hold1", script3="cwait0,hold1"),
+        des("explicit-colliding-keys", "condition", b, dl, procs=4, prios="0,1,2,1", budget=4, cond=1, res=1, ops=ops, collide=1,
+            script0="hold1,setx1,csig,setx2", script1="cwait0,hold1", script2="cwait1,hold1", script3="cwait2,hold1"),
         des("forwarded-subscribe", "condition", b, dl, procs=3, prios="0,1,2", budget=4, cond=1, res=1, ops=ops,
             subscribe="csub", script0="racq0,hold1,rrel0", script1="cwait3,hold1", script2="cwait3,hold1"),
         # waiters whose timers (standard and application-defined signals) expire in the instant of the signal
